@@ -124,6 +124,9 @@ func (cm *Manager) Start(id int, closeCh <-chan struct{}, done func()) {
 
 func (cm *Manager) runCycle(id int, reason string) {
 	_ = reason
+	if utils.VerifPaused("compaction") {
+		return
+	}
 	maxRuns := cm.maxRuns
 	ranAny := false
 	for range maxRuns {
